@@ -294,6 +294,12 @@ static FCase gen_fill() {
   for (int i = 0; i < 4; i++) c.color.push_back(coin(55) ? pick<int64_t>({0, 0xffff, 0x8000, 0xff00, 0xff80, 0x00ff, 0x0100}) : R(0, 0xffff));
   if (coin(45)) c.color[3] = 0xffff;
   c.use_rects = coin(40);
+  if (c.use_rects && !c.boxes.empty() && coin(20)) {
+    // rectangle16 carries an unsigned 16-bit size: far edges beyond 32767 (x + width does not fit int16)
+    Box &b = c.boxes[(size_t)R(0, (int64_t)c.boxes.size() - 1)];
+    if (coin(50)) b.x2 = b.x1 + R(32768, 65535);
+    if (coin(50)) b.y2 = b.y1 + R(32768, 65535);
+  }
   return c;
 }
 static Verdict run_fill(const FCase &c) {
